@@ -194,6 +194,14 @@ def connDemo : S := runOps (fun _ => []) (initS false 0 0 true true false [])
 example : connDemo.shut = true ∧ connDemo.shutdownReq = false ∧ Ev.shutcb 0 ∈ connDemo.trace ∧
     Ev.ret 0 ∈ connDemo.trace := by decide +kernel
 
+/-- a uv_write2 refused with UV_ENOMEM (vector of > 4 buffers, allocator says no) leaves the stream
+    untouched: size 0, the next uv_try_write goes straight to the OS, a later write completes -/
+def nomemDemo : S := runOps (fun _ => []) (initS false 0 0 false false false [])
+  ([.api (.writeNoMem [1, 2, 3, 4, 5, 6] false), .api (.tryWrite [2] false), .api (.write [1, 1, 1, 1, 1] false)]
+    ++ loopIter)
+example : Ev.ret UV_ENOMEM ∈ nomemDemo.trace ∧ nomemDemo.wqs = 0 ∧ nomemDemo.obsBad = false ∧
+    nomemDemo.accepted = [2] ∧ nomemDemo.cbs = [⟨2, 0, 5, 5⟩] ∧ nomemDemo.os.length = 7 := by decide +kernel
+
 /-- zero-length requests do not block uv_try_write (no queued *data*): documented behaviour -/
 example : (tryWrite2 (runOps (fun _ => []) (initS false 0 0 false false false [.fail 11, .ok 9])
     [.api (.write [0] false)]) [2] false).2 = 2 := by decide +kernel
